@@ -867,3 +867,167 @@ def check_c20(prop, tier, seed):
                                          'time; histories are generated from VERIF_SEED',
                                          'list nodes = over-aligned allocations counted through the replaced operator new/delete']
     return res
+
+
+# ------------------------------------------------------------------------------------------------
+# Zipf generators (C06, C19)
+# ------------------------------------------------------------------------------------------------
+def run_zipf(mode, tier, seed, workdir, timeout=900):
+    import subprocess
+    bdir = vlib.build(4)
+    os.makedirs(workdir, exist_ok=True)
+    o = os.path.join(workdir, mode + '.raw.ndjson')
+    if os.path.exists(o):
+        os.unlink(o)
+    try:
+        rc, out = vlib.sh([os.path.join(bdir, 'zipfh'), mode, '--seed', str(seed), '--tier', tier, '--out', o], timeout=timeout)
+    except subprocess.TimeoutExpired:
+        rc, out = 124, 'timed out after %ds' % timeout
+    recs = []
+    crashed = rc != 0
+    if os.path.exists(o):
+        with open(o, errors='replace') as f:
+            for line in f:
+                try:
+                    recs.append(json.loads(line))
+                except ValueError:
+                    crashed = True
+    return recs, crashed, out
+
+
+@register('C06')
+def check_c06(prop, tier, seed):
+    q = tier == 'quick'
+    workdir = os.path.join(OUT, 'work', prop)
+    os.makedirs(workdir, exist_ok=True)
+    # (M) the sampling algorithm on every order type of table and variate up to MaxN bins
+    cfg = vlib.write_cfg(os.path.join(SPEC, 'cfg', 'ZipfSearch.tpl.cfg'), {'MaxN': 6 if q else 7, 'K': 6 if q else 7},
+                         os.path.join(workdir, 'search.cfg'))
+    m = vlib.run_tlc(os.path.join(SPEC, 'ZipfSearch.tla'), cfg, 'zipfsearch', workers=8, heap='6g', timeout=1500)
+    violations = []
+    notes = []
+    if not m['ok']:
+        if m['violated']:
+            notes.append('ZipfSearch model: %s violated - the specification of the search itself is wrong or the property does not '
+                         'hold for the algorithm as modelled' % m['violated'])
+            violations.append({'desc': 'C06: TLC found an order type on which the modelled search violates %s' % m['violated'],
+                               'signature': ['model', str(m['violated'])], 'replay': {'kind': 'tlc', 'spec': 'ZipfSearch.tla'}})
+        else:
+            raise InfraError('ZipfSearch did not run: ' + m['out'][-2000:])
+    # (T) real samples
+    recs, crashed, out = run_zipf('c06', tier, seed, workdir)
+    full = {}
+    hists_keyed = {}
+    for r in recs:
+        if r['e'] == 's':
+            o = {'e': 's', 'cls': r['cls'], 'n': r['n'], 'i': r['i'], 'inr': r['inr'], 'lo': r['lo'], 'hi': r['hi'],
+                 'tab': r['tab'], 'ru': r['ru']}
+        else:
+            o = {'e': 'dflt', 'cls': '-', 'n': 0, 'i': 0, 'inr': 1, 'lo': 1, 'hi': 1, 'tab': [], 'ru': 0, 'zero': r['zero']}
+        o.setdefault('zero', 1)
+        key = json.dumps(o, sort_keys=True)
+        if key not in hists_keyed:
+            hists_keyed[key] = o
+            full[key] = r
+    keys = list(hists_keyed)
+    # groups of 400 records per "history" so that chunks can be cut anywhere
+    hists = [[hists_keyed[k] for k in keys[i:i + 400]] for i in range(0, len(keys), 400)]
+    rej, st = vlib.validate_until_clean(os.path.join(SPEC, 'ZipfTrace.tla'), os.path.join(SPEC, 'cfg', 'ZipfTrace.cfg'), hists,
+                                        workdir, 'zt', max_rounds=2)
+    for r in rej[:8]:
+        idx = r['hist'] * 400 + r['line']
+        bad = full[keys[idx]] if idx < len(keys) else {}
+        sig = ['cls:' + str(bad.get('cls')), 'kind:' + str(bad.get('kind')), 'inr:%s' % bad.get('inr'), 'lo:%s hi:%s' % (bad.get('lo'), bad.get('hi'))]
+        violations.append({'desc': 'C06: %s<%s>(min=%s,max=%s,alpha=%s) on engine output %s returned %s: in-range=%s, lower bound=%s, '
+                                   'upper bound=%s, table ranks=%s, variate rank=%s'
+                                   % ({'Z': 'ZipfDistribution', 'A': 'ApproxZipfDistribution'}.get(bad.get('cls'), '?'), bad.get('ty'),
+                                      bad.get('min'), bad.get('max'), bad.get('alpha'), bad.get('x'), bad.get('v'), bad.get('inr'),
+                                      bad.get('lo'), bad.get('hi'), bad.get('tab'), bad.get('ru')),
+                           'signature': sig, 'replay': {'kind': 'zipf', 'record': bad}})
+    if crashed:
+        violations.append({'desc': 'C06: the sampling driver crashed or threw: ' + out[-300:], 'signature': ['crash'],
+                           'replay': {'kind': 'zipf', 'seed': seed, 'tier': tier}})
+    kinds = collections.Counter(r.get('kind', 'dflt') for r in recs)
+    cov = {'states': max(1, m['distinct'] + st['distinct']), 'transitions': max(1, m['states'] + st['states']),
+           'traces_validated_against_impl': len(recs), 'distinct_records': len(keys),
+           'model_states_ZipfSearch': m['distinct'], 'model_exhaustive_up_to_bins': 6 if q else 7,
+           'records_with_full_table': sum(1 for k in keys if hists_keyed[k]['tab']),
+           'sample_kinds': dict(kinds), 'exhaustive': False,
+           'samples': [full[keys[i]] for i in range(0, len(keys), max(1, len(keys) // 3))][:3],
+           'rejected_records': len(rej)}
+    return {'level': 'model_checking', 'violations': violations, 'coverage': cov, 'notes': notes,
+            'assumptions': ['the variate u is recomputed by the harness from a copy of the engine with the same '
+                            'std::uniform_real_distribution<double>; engine outputs are crafted so that u lands on, one ulp below and '
+                            'one ulp above CDF breakpoints',
+                            'the search is comparison-only: for a given number of bins its behaviour depends on the order type of '
+                            '(table, variate) only, which TLC enumerates completely up to the stated number of bins',
+                            'nothing is decided about the numeric values of the CDF (C18)']}
+
+
+@register('C19')
+def check_c19(prop, tier, seed):
+    workdir = os.path.join(OUT, 'work', prop)
+    recs, crashed, out = run_zipf('c19', tier, seed, workdir)
+    crecs, ccrashed, cout = run_zipf('c19cons', tier, seed, workdir, timeout=90)
+    pending = None
+    hung = None
+    for r in crecs:
+        if r['e'] == 'cons_begin':
+            pending = r
+        elif r['e'] == 'cons':
+            pending = None
+            recs.append(r)
+    if ccrashed and pending is not None:
+        hung = pending
+    groups = collections.OrderedDict()
+    for r in recs:
+        key = (r['cls'], r['ty'], r['min'], r['max'], r['alpha'])
+        groups.setdefault(key, []).append(r)
+    hists = []
+    origin = []
+    for key, rs in groups.items():
+        seeds = {}
+        h = []
+        src = []
+        for r in rs:
+            if r['e'] == 'samp':
+                sd = seeds.setdefault(r['seed'], len(seeds) + 1)
+                h.append({'e': 'samp', 'sd': sd, 'k': r['k'], 'v': r['v'], 'threw': 0, 'bad': 0})
+            else:
+                h.append({'e': 'cons', 'sd': 0, 'k': 0, 'v': '-', 'threw': r['threw'], 'bad': int(int(r['max']) < int(r['min']))})
+            src.append(r)
+        hists.append(h)
+        origin.append(src)
+    rej, st = vlib.validate_until_clean(os.path.join(SPEC, 'ZipfAbsTrace.tla'), os.path.join(SPEC, 'cfg', 'ZipfAbsTrace.cfg'), hists,
+                                        workdir, 'za', max_rounds=3)
+    violations = []
+    for r in rej[:8]:
+        bad = origin[r['hist']][r['line']] if r['line'] < len(origin[r['hist']]) else {}
+        if bad.get('e') == 'cons':
+            d = 'constructing %s<%s>(min=%s, max=%s) %s' % (bad.get('cls'), bad.get('ty'), bad.get('min'), bad.get('max'),
+                                                             'threw' if bad.get('threw') else 'did not throw')
+            sig = ['cons', 'cls:' + str(bad.get('cls'))]
+        else:
+            d = ('%s<%s>(min=%s,max=%s,alpha=%s): the %s generator produced %s at position %s of seed %s, another object with equal '
+                 'parameters produced a different value from the same engine state'
+                 % (bad.get('cls'), bad.get('ty'), bad.get('min'), bad.get('max'), bad.get('alpha'), bad.get('who'), bad.get('v'),
+                    bad.get('k'), bad.get('seed')))
+            sig = ['samp', 'cls:' + str(bad.get('cls')), 'who:' + str(bad.get('who'))]
+        violations.append({'desc': 'C19: ' + d, 'signature': sig, 'replay': {'kind': 'zipf', 'record': bad}})
+    if crashed:
+        violations.append({'desc': 'C19: the driver crashed: ' + out[-300:], 'signature': ['crash'], 'replay': {'kind': 'zipf'}})
+    if hung is not None:
+        bad = int(hung['max']) < int(hung['min'])
+        violations.append({'desc': 'C19: constructing %s<%s>(min=%s, max=%s) neither returned nor threw within 90 s (%s)'
+                                   % (hung['cls'], hung['ty'], hung['min'], hung['max'], 'max < min must be rejected' if bad else cout[-100:]),
+                           'signature': ['cons-hang', 'cls:' + hung['cls']], 'replay': {'kind': 'zipf', 'record': hung}})
+    cov = {'explanation': 'trace validation against a functional specification (ZipfAbsTrace.tla): per parameter tuple TLC keeps the '
+                          'function engine-state -> value learnt so far and requires every sample of the original, equal, copied, '
+                          'moved and concurrently shared generators to agree with it; constructions must throw iff max < min',
+           'states': max(1, st['distinct']), 'transitions': max(1, st['states']), 'traces_validated_against_impl': len(groups),
+           'evaluations': len(recs), 'distinct_nontrivial': len(groups),
+           'rule': 'one parameter tuple (class, type, min, max, alpha) = one case; non-trivial = at least two objects sampled',
+           'samples': [recs[i] for i in range(0, len(recs), max(1, len(recs) // 3))][:3], 'rejected_groups': len(rej)}
+    return {'level': 'other', 'violations': violations, 'coverage': cov,
+            'assumptions': ['engines are std::mt19937_64 seeded from VERIF_SEED; concurrent sampling uses real threads without a '
+                            'scheduler, so a data race on hidden mutable state is caught only if it manifests in the sampled run']}
